@@ -42,6 +42,11 @@ def make_pair(sh, kind, log):
     if kind == 'method':
         exec('class R:\n    def m(%s):\n        _log.append(1)\nclass S:\n    def m(%s):\n        return None\n' % (ssig, ssig), ns)
         return ns['R']().m, ns['S']().m
+    if kind == 'instance-args':
+        # a callable instance that merely has attributes named like those of functools.partial (a job remembering its inputs)
+        exec('class R:\n    def __init__(self):\n        self.args = (1, 2)\n        self.keywords = {"a": 1}\n    def __call__(%s):\n        _log.append(1)\n'
+             'class S:\n    def __call__(%s):\n        return None\n' % (ssig, ssig), ns)
+        return ns['R'](), ns['S']()
     if kind == 'instance':
         exec('class R:\n    def __call__(%s):\n        _log.append(1)\nclass S:\n    def __call__(%s):\n        return None\n' % (ssig, ssig), ns)
         return ns['R'](), ns['S']()
@@ -107,7 +112,7 @@ class Validate:
         # the known defect (validate ignores keyword-only parameters) predicts: klepto answers as Python would for the
         # same signature without its keyword-only parameters; any other disagreement is a different defect
         binds_nokw = None
-        if sh['nkwo'] and cfg['kind'] in ('func', 'method', 'instance', 'wrapped'):
+        if sh['nkwo'] and cfg['kind'] in ('func', 'method', 'instance', 'wrapped', 'instance-args'):
             _r, stub_nk = make_pair(dict(sh, nkwo=0, kwodef=[]), cfg['kind'], [])
             if part:
                 stub_nk = functools.partial(stub_nk, *fa, **fk)
@@ -180,7 +185,7 @@ def plan(prop, tier):
     shapes = quick_shapes() if q else all_shapes()
     cfgs = []
     for sh in shapes:
-        for kind in ('func', 'method', 'instance', 'wrapped', 'pmethod'):
+        for kind in ('func', 'method', 'instance', 'wrapped', 'pmethod', 'instance-args'):
             if q and kind != 'func' and (sh['nkwo'] or sh['npos'] > 2):
                 continue
             if kind == 'pmethod' and (sh['nkwo'] or sh['varkw']):
